@@ -88,19 +88,31 @@ structure Cfg where
   csrGuard : Bool
   compactOwnLast : Bool
   vecStaged : Bool
-deriving Repr
+  /-- `GraphEngine::compact` reads `tree.root()` AFTER the insert loops of the property sinking (code fact) -/
+  rootAfterInserts : Bool
+  /-- the sinking loops of `compact` replace the store entry of a key (replace_property_entry) instead of
+      adding one more entry per compaction (code fact) -/
+  sinkReplaces : Bool
+  /-- environment, not code: does the root page of the property tree change (root split — `BTree::insert`
+      allocates a new root page and keeps the old one as its left half) while a compaction inserts `k`
+      entries into a tree of `n` entries?  The theorems hold for EVERY such oracle. -/
+  rootMoves : Nat → Nat → Bool
 
 /-- the working tree as the extractor sees it now -/
 def Cfg.current : Cfg :=
   { commitOrder := Generated.commitOrder, csrGuard := Generated.csrIncomingGuard,
-    compactOwnLast := Generated.compactOwnEdgeTombstonesLast, vecStaged := Generated.setVectorStaged }
+    compactOwnLast := Generated.compactOwnEdgeTombstonesLast, vecStaged := Generated.setVectorStaged,
+    rootAfterInserts := Generated.compactReadsRootAfterInserts, sinkReplaces := Generated.compactSinkReplaces,
+    rootMoves := fun n k => (n + k) / 390 != n / 390 }
 
 /-- the pinned tree (before any `fix:`) -/
 def Cfg.pinned : Cfg :=
   { commitOrder := [.createNode, .addNodeLabel, .removeNodeLabel, .createEdge, .tombstoneNode,
                     .tombstoneEdge, .setNodeProperty, .removeNodeProperty, .setEdgeProperty,
                     .removeEdgeProperty],
-    csrGuard := false, compactOwnLast := false, vecStaged := false }
+    csrGuard := false, compactOwnLast := false, vecStaged := false, rootAfterInserts := true,
+    sinkReplaces := false,
+    rootMoves := fun n k => (n + k) / 390 != n / 390 }
 
 /-- what survives a drop of the engine (no crash): the log, the node table, the segment pages, the
     property tree, the vector index pages -/
@@ -109,6 +121,7 @@ structure Disk where
   i2e : List I2e := []
   segStore : List Seg := []
   store : Store := []
+  storeRoot : Nat := 0             -- the page that IS the root of the property tree (0 = no tree)
   vecs : List (Nat × List Nat) := []
 deriving Repr
 
@@ -120,13 +133,16 @@ structure Engine where
   runs : List Run := []            -- published_runs, newest first
   segs : List Seg := []            -- published_segments, newest first
   segStore : List Seg := []        -- segment pages in the .ndb file
-  store : Store := []
+  store : Store := []              -- every entry of the property tree in the file
+  storeRoot : Nat := 0             -- the page that IS the root of that tree (0 = no tree); page ids are
+                                   -- abstracted to generation numbers: a root split gives the next one
   vecs : List (Nat × List Nat) := []
   nextTxid : Nat := 1
   nextSegId : Nat := 1
   epoch : Nat := 0
   ckptTxid : Nat := 0
-  propsRoot : Nat := 0
+  propsRoot : Nat := 0             -- properties_root: the page the ENGINE takes for the root (reads,
+                                   -- manifest, checkpoint); must equal `storeRoot`
 deriving Repr
 
 /-- engine.rs WriteTxn -/
@@ -142,7 +158,8 @@ deriving Repr
 namespace Engine
 
 def disk (s : Engine) : Disk :=
-  { wal := s.wal, i2e := s.idmap.i2e, segStore := s.segStore, store := s.store, vecs := s.vecs }
+  { wal := s.wal, i2e := s.idmap.i2e, segStore := s.segStore, store := s.store, storeRoot := s.storeRoot,
+    vecs := s.vecs }
 
 /-- GraphEngine::begin_write -/
 def beginWrite (s : Engine) : Engine × Txn :=
@@ -264,9 +281,17 @@ def compact (c : Cfg) (s : Engine) : Engine :=
     let sinkE := sinkProps (·.eprops) s.runs
     let sunk : Store := sinkN.map (fun p => (SKey.node p.1.1 p.1.2, p.2)) ++
                         sinkE.map (fun p => (SKey.edge p.1.1 p.1.2, p.2))
-    let root := if sunk.isEmpty then s.propsRoot else 1
+    -- `BTree::create` (no root yet) / `BTree::load(current_root)`: the root before the insert loops
+    let before := if s.propsRoot == 0 then s.storeRoot + 1 else s.propsRoot
+    -- `tree.root()` after the loops: every insert may split the root and allocate a new root page
+    let after := if c.rootMoves s.store.length sunk.length then max before s.storeRoot + 1 else before
+    -- `current_root = tree.root()`: where the source reads it (regenerated flag)
+    let root := if sunk.isEmpty then s.propsRoot else if c.rootAfterInserts then after else before
     let sys := s.nextTxid
-    { s with segStore := seg :: s.segStore, store := sunk ++ s.store,
+    -- replace_property_entry: every entry of a sunk key is deleted before the new one is inserted
+    let kept := if c.sinkReplaces then s.store.filter (fun p => !sunk.any (·.1 == p.1)) else s.store
+    { s with segStore := seg :: s.segStore, store := sunk ++ kept,
+             storeRoot := if sunk.isEmpty then s.storeRoot else after,
              wal := s.wal ++ [.beginTx sys, .manifestSwitch epoch (segs.map (·.id)) root,
                               .checkpoint upTo epoch root, .commitTx sys],
              nextTxid := s.nextTxid + 1, nextSegId := s.nextSegId + 1,
@@ -312,7 +337,8 @@ structure Recovery where
   segs : List Nat := []
   ckptTxid : Nat := 0
   maxTxid : Nat := 0
-  propsRoot : Nat := 0
+  propsRoot : Nat := 0             -- properties_root: the page the ENGINE takes for the root (reads,
+                                   -- manifest, checkpoint); must equal `storeRoot`
 deriving Repr
 
 /-- engine.rs scan_recovery_state -/
@@ -393,7 +419,7 @@ def Engine.open (d : Disk) : Except OpenErr Engine := do
   let interner ← replayLabels committed
   let (idmap, runs) ← replayGraph committed st.ckptTxid (IdMap.load d.i2e)
   pure { wal := d.wal, idmap, interner, runs := runs.reverse, segs, segStore := d.segStore,
-         store := d.store, vecs := d.vecs,
+         store := d.store, storeRoot := d.storeRoot, vecs := d.vecs,
          nextTxid := max (st.maxTxid + 1) 1, nextSegId := max (maxSeg + 1) 1,
          epoch := st.epoch, ckptTxid := st.ckptTxid, propsRoot := st.propsRoot }
 
@@ -425,28 +451,34 @@ def nodesSnap (s : Engine) : List Nat := liveNodeIds s.idmap.i2l.length s.runs
 /-- api.rs StorageSnapshot::is_tombstoned_node -/
 def isTombstoned (s : Engine) (n : Nat) : Bool := isTombNode s.runs n
 
+/-- what the property tree shows when entered at the page the engine takes for its root: nothing while
+    there is no root; every entry when that page IS the root; a page that stopped being the root (the
+    left half of a split) reaches only a part of the tree — outside this model: nothing -/
+def visibleStore (s : Engine) : Store :=
+  if s.propsRoot == 0 then [] else if s.propsRoot == s.storeRoot then s.store else []
+
 /-- api.rs StorageSnapshot::node_property: run overlay first, then the store — also when the
     overlay said "removed" -/
 def nodeProp (s : Engine) (n k : Nat) : Option PV :=
   match npropRuns n k s.runs with
   | some v => some v
-  | none => if s.propsRoot == 0 then none else s.store.get (.node n k)
+  | none => s.visibleStore.get (.node n k)
 
 /-- api.rs StorageSnapshot::edge_property -/
 def edgeProp (s : Engine) (e : Edge) (k : Nat) : Option PV :=
   match epropRuns e k s.runs with
   | some v => some v
-  | none => if s.propsRoot == 0 then none else s.store.get (.edge e k)
+  | none => s.visibleStore.get (.edge e k)
 
 /-- api.rs StorageSnapshot::node_properties (`None` = empty map) -/
 def nodeProps (s : Engine) (n : Nat) : List (Nat × PV) :=
   let props := mergeNProps n s.runs [] []
-  if s.propsRoot != 0 then s.store.extendNode n props else props
+  if s.propsRoot != 0 then s.visibleStore.extendNode n props else props
 
 /-- api.rs StorageSnapshot::edge_properties -/
 def edgeProps (s : Engine) (e : Edge) : List (Nat × PV) :=
   let props := mergeEProps e s.runs [] []
-  if s.propsRoot != 0 then s.store.extendEdge e props else props
+  if s.propsRoot != 0 then s.visibleStore.extendEdge e props else props
 
 /-- api.rs StorageSnapshot::resolve_node_labels -/
 def nodeLabels (s : Engine) (n : Nat) : Option (List Nat) := s.idmap.i2l[n]?
